@@ -178,6 +178,7 @@ impl TaskGen<'_> {
   fn rchk_for(&mut self, res: usize) -> RK {
     if let Some(k) = self.rchk.get(&res) { return *k; }
     let mut k = pick_rk(self.rng, self.exact_only);
+    if self.resources[res].fam == 4 && !self.writer.contains_key(&res) && !self.exact_only && self.rng.chance(30) { k = RK::Version; }
     k = adjust_kind(k, self.resources[res].fam, self.writer.contains_key(&res));
     if let Some(w) = self.wchk.get(&res) {
       // A reader's checker must not be finer than the writer's checker.
